@@ -160,7 +160,9 @@ theorem tw_length_le (p : X → Bool) (l : List X) : (l.takeWhile p).length ≤ 
   | nil => simp
   | cons a l ih =>
     simp only [List.takeWhile_cons]
-    split <;> simp <;> omega
+    split
+    · simp; omega
+    · simp
 
 /-- Everything before the stopping index satisfies the predicate. -/
 theorem tw_before (p : X → Bool) (l : List X) (i : Nat) (hi : i < (l.takeWhile p).length) (x : X)
